@@ -120,6 +120,28 @@ def ob_handoff(h, shape):
     got = rec['args']
     h.require(len(got) == len(want) and all_of([bytes_equal(a, b) for a, b in zip(got, want)]), 'argv-verbatim',
               'the child\'s argv is not the given vector (plus exactly the hooks-path override when one applies)')
+    # the child gets its own process group exactly when stdin is not a terminal (a foreground read from a
+    # background group stops the child: SIGTTIN), and then the wrapper forwards the terminating signals to it
+    tty = P.state.get('isatty', {})
+    stdin_tty = tty.get(0) if isinstance(tty, dict) else None
+    ev = P.events
+    b_ = [i for i, e in enumerate(ev) if e[0] == 'pre_exec_begin']
+    e_ = [i for i, e in enumerate(ev) if e[0] == 'pre_exec_end']
+    own_group = bool(b_ and e_ and any(e[0] == 'setpgid' for e in ev[b_[0]:e_[0]]))
+    if stdin_tty is not None:
+        is_tty = P.branch(binop('Eq', stdin_tty, Sc(1, 32, True)))
+        h.inputs_struct['stdin_tty'] = is_tty
+        h.require(own_group == (not is_tty), 'own-process-group-iff-stdin-is-not-a-terminal',
+                  'stdin %s a terminal, child %s its own process group' % ('is' if is_tty else 'is not', 'gets' if own_group else 'does not get'))
+    else:
+        h.require(False, 'own-process-group-iff-stdin-is-not-a-terminal', 'the decision was taken without asking whether stdin is a terminal')
+    if own_group and child not in ('spawn_fails',):
+        sigs = []
+        for e in ev:
+            if e[0] == 'signal' and isinstance(e[1], Sc) and e[1].concrete:
+                sigs.append(e[1].v)
+        h.require({15, 2, 1, 3} <= set(sigs), 'terminating-signals-are-forwarded',
+                  'with the child in its own group the wrapper installs handlers for %r only (TERM=15 INT=2 HUP=1 QUIT=3 must reach git)' % sorted(set(sigs)))
     h.require(rec['stdio'] == [] and rec['cwd'] is None, 'stdio-inherited', 'stdin/stdout/stderr or the working directory of the child were redirected')
     envs = [(bytes(concrete_bytes(k) or b'?'), bytes(concrete_bytes(v) or b'?')) for k, v in rec['env']]
     h.require(envs == [(b'GITAI_SKIP_MANAGED_HOOKS', b'1')] and rec['env_removed'] == [], 'environment-untouched',
@@ -142,6 +164,68 @@ def ob_exit_status(h, shape):
 OBLIGATIONS = {'handoff': ob_handoff, 'exit_status': ob_exit_status}
 
 
+def _replay_group_and_signals(v, native):
+    """the real proxy with a stand-in git that reports its process group and the signals it receives"""
+    import json
+    import os
+    import pty
+    import signal
+    import subprocess
+    import tempfile
+    import time
+    inp = v['inputs']
+    tmp = tempfile.mkdtemp(prefix='vc06g')
+    try:
+        rec = os.path.join(tmp, 'recgit')
+        out = os.path.join(tmp, 'rec.json')
+        started = os.path.join(tmp, 'started')
+        with open(rec, 'w') as f:
+            f.write('#!/usr/bin/env python3\nimport os, sys, json, signal, time\n'
+                    'got = []\n'
+                    'def hnd(s, fr):\n    got.append(s)\n'
+                    'for s in (1, 2, 3, 15):\n    signal.signal(s, hnd)\n'
+                    'json.dump({"own_group": os.getpgrp() == os.getpid()}, open(%r, "w"))\n'
+                    'open(%r, "w").write("x")\n'
+                    'end = time.time() + float(os.environ.get("VREC_WAIT", "0"))\n'
+                    'while time.time() < end and not got:\n    time.sleep(0.05)\n'
+                    'json.dump({"own_group": os.getpgrp() == os.getpid(), "signals": got}, open(%r, "w"))\n' % (out, started, out))
+        os.chmod(rec, 0o755)
+        os.makedirs(os.path.join(tmp, '.git-ai'))
+        json.dump({'git_path': rec}, open(os.path.join(tmp, '.git-ai', 'config.json'), 'w'))
+        inf = os.path.join(tmp, 'input.json')
+        json.dump({'args': [{'utf8': 'status'}], 'override': None, 'exit_on_completion': False}, open(inf, 'w'))
+        exe = native.__globals__['replay_binary']()
+        ob = v['obligation']
+        env = {'HOME': tmp, 'PATH': os.environ.get('PATH', ''), 'VREPLAY_INPUT': inf, 'VREC_WAIT': '4' if ob == 'terminating-signals-are-forwarded' else '0'}
+        want_tty = bool(inp.get('stdin_tty')) and ob != 'terminating-signals-are-forwarded'
+        if want_tty:
+            master, slave = pty.openpty()
+            p = subprocess.Popen([exe, 'c06_handoff'], stdin=slave, stdout=subprocess.PIPE, stderr=subprocess.PIPE, env=env)
+        else:
+            p = subprocess.Popen([exe, 'c06_handoff'], stdin=subprocess.PIPE, stdout=subprocess.PIPE, stderr=subprocess.PIPE, env=env)
+        sent = None
+        if ob == 'terminating-signals-are-forwarded':
+            t0 = time.time()
+            while not os.path.exists(started) and time.time() - t0 < 20:
+                time.sleep(0.05)
+            time.sleep(0.2)
+            sent = signal.SIGHUP
+            p.send_signal(sent)
+        try:
+            p.wait(timeout=30)
+        except subprocess.TimeoutExpired:
+            p.kill()
+        time.sleep(0.3)
+        got = json.load(open(out)) if os.path.exists(out) else None
+        if got is None:
+            return {'reproduced': False, 'note': 'the stand-in git did not run'}
+        if ob == 'own-process-group-iff-stdin-is-not-a-terminal':
+            return {'reproduced': got['own_group'] == want_tty, 'native': got, 'stdin_tty': want_tty}
+        return {'reproduced': int(sent) not in got.get('signals', []), 'native': got, 'sent': int(sent)}
+    finally:
+        subprocess.call(['rm', '-rf', tmp])
+
+
 def replay(v, native):
     """run the real proxy with a recording stand-in for git (configured through HOME/.git-ai/config.json)
     and compare what the stand-in received"""
@@ -153,6 +237,8 @@ def replay(v, native):
     if v['obligation'].startswith('K1-'):
         from harness import c07
         return c07.replay_exit_status(v, native)
+    if v['obligation'] in ('own-process-group-iff-stdin-is-not-a-terminal', 'terminating-signals-are-forwarded'):
+        return _replay_group_and_signals(v, native)
     tmp = tempfile.mkdtemp(prefix='vc06')
     try:
         rec = os.path.join(tmp, 'recgit')
